@@ -1,5 +1,5 @@
 CONSTANTS Pgnos = {256, 257, 369, 427} Subnos = {0, 1, 2, 256} Sizes = {1, 2} Fns = {"unknown", "lop"} NSlots = 4 NNSlots = 2
-  MaxOps = 40 MaxPuts = 1000 Limits = {3, 5, 1000} NetLimit = 1 Policy = "impl" SkipCollected = TRUE
+  MaxOps = 40 MaxPuts = 1000 Limits = {3, 5, 1000} NetLimit = 1 Policy = "impl" SkipCollected = TRUE ExactFirst = TRUE
   GetMasks = {15, 255, 65535} ClockVals = {TRUE, FALSE} MaxNets = 1000
 SPECIFICATION GSpec
 CONSTRAINT Dump
